@@ -24,6 +24,17 @@ use std::cell::RefCell;
 /// `core` as the extracted code sees it
 mod wmcore {
     pub use vshim_core::*;
+    /// `core::ptr` with the one copy the extracted `get_next_cqe` does routed through the engine's tracked cells
+    pub mod ptr {
+        #[allow(unused_imports)]
+        pub use vshim_core::ptr::*;
+        /// # Safety
+        /// as `core::ptr::copy_nonoverlapping`
+        pub unsafe fn copy_nonoverlapping<T>(src: *const T, dst: *mut T, count: usize) {
+            ilv::cell_access(src as usize, false);
+            vshim_core::ptr::copy_nonoverlapping(src, dst, count)
+        }
+    }
     pub mod sync {
         #[allow(unused_imports)]
         pub use vshim_core::sync::*;
@@ -85,6 +96,9 @@ mod ringcode {
     }
 
     pub fn ring_over(m: &Mem, entries: u32) -> IoUring {
+        ring_over_cq(m, entries, 2 * entries)
+    }
+    pub fn ring_over_cq(m: &Mem, entries: u32, cq_entries: u32) -> IoUring {
         let nn = |a: &AtomicU32| NonNull::from(a);
         IoUring {
             fd: Fd::try_new(0).unwrap(),
@@ -110,8 +124,8 @@ mod ringcode {
                 kernel_tail: nn(&m.cq_tail),
                 kernel_flags: None,
                 kernel_overflow: nn(&m.cq_overflow),
-                ring_mask: 2 * entries - 1,
-                ring_entries: 2 * entries,
+                ring_mask: cq_entries - 1,
+                ring_entries: cq_entries,
                 entries: NonNull::from(&m.cqes[0]),
             },
             reaped: [0; 4],
@@ -119,7 +133,7 @@ mod ringcode {
     }
 }
 
-use ringcode::{Mem, new_mem, ring_over};
+use ringcode::{Mem, new_mem, ring_over, ring_over_cq};
 use wmcore::sync::atomic::Ordering;
 
 struct St {
@@ -300,6 +314,72 @@ impl Model for Hand {
     }
 }
 
+/// A completion ring that is kept FULL: the kernel posts the next completion the moment the head it reads
+/// allows, into the slot the application has just released.  Every completion must be reaped exactly once, in
+/// order, and the kernel's write must not race with the application's copy of the entry.
+struct CqFull {
+    cq: u32,
+    total: u32,
+}
+impl Model for CqFull {
+    fn n_threads(&self) -> usize {
+        2
+    }
+    fn setup(&self) {
+        unsafe { *wmcore::sync::atomic::SC_FENCE_WORD.as_ptr() = 0 };
+        ST.with(|s| {
+            let mut s = s.borrow_mut();
+            s.mem = Some(new_mem());
+            s.reaped.clear();
+        });
+    }
+    fn thread(&self, tid: usize) {
+        let m = mem();
+        if tid == 0 {
+            let mut ring = ring_over_cq(m, 1, self.cq);
+            let mut n = 0;
+            while n < self.total {
+                match ring.get_next_cqe() {
+                    Some(c) => {
+                        let u = c.0.user_data;
+                        ST.with(|s| s.borrow_mut().reaped.push(u));
+                        n += 1;
+                    }
+                    None => wmcore::hint::spin_loop(),
+                }
+            }
+        } else {
+            let mask = self.cq - 1;
+            for i in 0..self.total {
+                // io_get_cqe(): room when tail - READ_ONCE(head) < cq_entries (the head is read with acquire semantics)
+                loop {
+                    let head = m.cq_head.load(Ordering::Acquire);
+                    if i.wrapping_sub(head) < self.cq {
+                        break;
+                    }
+                    wmcore::hint::spin_loop();
+                }
+                let cqe = &m.cqes[(i & mask) as usize] as *const _ as *mut real_rusl::platform::IoUringCompletionQueueEntry;
+                ilv::cell_access(cqe as usize, true);
+                unsafe { (*cqe).0.user_data = 1 + i as u64 };
+                m.cq_tail.store(i + 1, Ordering::Release);
+            }
+        }
+    }
+    fn finish(&self, end: &End) -> String {
+        ST.with(|s| {
+            let s = s.borrow();
+            if *end == End::Finished {
+                let want: Vec<u64> = (1..=self.total as u64).collect();
+                if s.reaped != want {
+                    ilv::flag_violation("completion-lost-or-duplicated", format!("completions posted {want:?}, reaped {:?}", s.reaped));
+                }
+            }
+            (if *end == End::Finished { "every completion reaped once, in order" } else { "unfinished" }).to_string()
+        })
+    }
+}
+
 fn programs(th: bool) -> Vec<(String, Hand, Budget)> {
     let mut v = Vec::new();
     let b = |p, w| Budget { p, d: 0, w };
@@ -394,6 +474,31 @@ fn run(args: &Args) -> Report {
             r.sample(json!({"program": name, "outcome": a.1, "trace_head": a.3.iter().take(16).collect::<Vec<_>>()}));
         }
     }
+    for cq in [1u32, 2] {
+        let name = format!("full-completion-ring-of-{cq}");
+        let model = CqFull { cq, total: cq + 1 };
+        let budget = Budget { p: if args.thorough { 3 } else { 2 }, d: 0, w: 0 };
+        let cfg = Config { budget, max_steps: 4_000, workers: n_workers().min(8), max_schedules: 0, stop_at_first: false, max_seconds: 30 };
+        let st = ilv::explore(&model, &cfg);
+        r.evaluations += st.schedules;
+        r.distinct_by_construction += st.schedules;
+        r.states += st.states;
+        r.transitions += st.transitions;
+        for (k, c) in &st.outcomes {
+            r.outcome_n(&format!("{name}: {k}"), *c);
+        }
+        if st.time_cap_hit || st.schedule_cap_hit || st.step_cap_hits > 0 {
+            r.cap(format!("{name}: exploration capped"));
+        }
+        for (kind, v) in &st.violations {
+            r.violation(
+                &format!("C17:weak-memory:{kind}"),
+                format!("program {name} (P={} W={}): {} [{} schedules]", budget.p, budget.w, v.desc, v.count),
+                json!({"phase": "wm", "op": "cq-full", "program": name, "cq": cq, "budget": [budget.p, budget.d, budget.w], "choices": choices_json(&v.choices)}),
+            );
+        }
+        r.bound(&format!("budget {name}"), json!({"preemptions": budget.p, "stale_reads": budget.w, "schedules": st.schedules, "states": st.states}));
+    }
     r.rule = "every interleaving of the application thread (verbatim rusl queue functions) and the modelled SQ poll thread within P preemptions and W stale reads, per program; each schedule is explored once".into();
     r.note("SeqCst fences are modelled as acquire-release RMWs of one common word (ilv's own fence does not order SeqCst fences totally)".to_string());
     r.note(format!("wall {:.1}s", t0.elapsed().as_secs_f64()));
@@ -412,6 +517,22 @@ fn main() {
                 println!("VIOLATED {}: {}", v.key, v.desc);
             }
             std::process::exit(if r.violations.is_empty() { 0 } else { 1 });
+        }
+        if v["op"].as_str() == Some("cq-full") {
+            let cq = v["cq"].as_u64().unwrap_or(1) as u32;
+            let b = &v["budget"];
+            let budget = Budget { p: b[0].as_u64().unwrap_or(3) as u8, d: 0, w: b[2].as_u64().unwrap_or(1) as u8 };
+            let choices: Vec<(u16, u16)> = v["choices"].as_array().map(|a| a.iter().map(|x| (x[0].as_u64().unwrap_or(0) as u16, x[1].as_u64().unwrap_or(0) as u16)).collect()).unwrap_or_default();
+            let (end, label, viol, trace) = ilv::replay(&CqFull { cq, total: cq + 1 }, budget, 4_000, &choices);
+            for l in &trace {
+                println!("{l}");
+            }
+            println!("end={end:?} outcome={label}");
+            if let Some((k, d)) = viol {
+                println!("VIOLATED C17:weak-memory:{k}: {d}");
+                std::process::exit(1);
+            }
+            return;
         }
         let name = v["program"].as_str().unwrap_or("one-entry");
         let Some((_, model, _)) = programs(true).into_iter().find(|x| x.0 == name) else { panic!("no such program") };
